@@ -217,6 +217,30 @@ func checkScaleStep(t TB, c any, src barcode.Barcode, st ScaleStep, depth int) (
 	if res.Metadata() != src.Metadata() {
 		failf(t, P, K, c, "depth %d: Metadata() %+v differs from the source's %+v", depth, res.Metadata(), src.Metadata())
 	}
+	if rc, ok := res.(barcode.BarcodeColor); ok && st.W*st.H <= 300000 {
+		// a result that reports a colour scheme of its own: its symbol area must be drawn in exactly those two colours
+		rcs := rc.ColorScheme()
+		if pv := try(func() {
+			for y := 0; y < st.H && firstMsg == ""; y++ {
+				for x := 0; x < st.W; x++ {
+					if px := res.At(x, y); !sameValue(px, rcs.Foreground) && !sameValue(px, rcs.Background) && !sameValue(px, fill) {
+						firstMsg = fmt.Sprintf("the result reports the colour scheme %#v / %#v, pixel (%d,%d) is %#v (neither of them nor the fill colour)", rcs.Foreground, rcs.Background, x, y, px)
+						break
+					}
+				}
+			}
+		}); pv != nil {
+			failf(t, P, K, c, "depth %d: %v", depth, pv)
+		}
+		if firstMsg != "" {
+			failf(t, P, K, c, "depth %d: %s", depth, firstMsg)
+		}
+	}
+	if _, srcHas := src.(barcode.BarcodeIntCS); !srcHas {
+		if rcs, ok := res.(barcode.BarcodeIntCS); ok {
+			failf(t, P, K, c, "depth %d: the source exposes no CheckSum(), the scaled barcode does (value %d): the accessors of the result do not equal those of the source", depth, rcs.CheckSum())
+		}
+	}
 	if scs, ok := src.(barcode.BarcodeIntCS); ok {
 		rcs, ok2 := res.(barcode.BarcodeIntCS)
 		if !ok2 {
@@ -503,6 +527,7 @@ func gcd(a, b int) int {
 // error/no-error decision, the bounds, the accessors and a sparse set of pixels (corners, edges of the symbol area,
 // block borders, a deterministic scatter) are compared with the pixel model.
 type GiantCase struct {
+	Pre    [2]int     `json:"pre,omitempty"` // non-zero: the source is first scaled to this (giant) size; the judged step scales that view
 	Source EncSpec    `json:"source"`
 	W      int        `json:"w"`
 	H      int        `json:"h"`
@@ -515,6 +540,12 @@ func checkGiant(t TB, c GiantCase) {
 	src, err, pv := encodeSpec(c.Source)
 	if pv != nil || err != nil || nilBarcode(src) {
 		failf(t, P, K, c, "source not encodable: %v %v", err, pv)
+	}
+	if c.Pre[0] > 0 {
+		var perr error
+		if ppv := try(func() { src, perr = barcode.Scale(src, c.Pre[0], c.Pre[1]) }); ppv != nil || perr != nil || nilBarcode(src) {
+			failf(t, P, K, c, "first scaling to %dx%d failed: %v %v", c.Pre[0], c.Pre[1], perr, ppv)
+		}
 	}
 	W, H, dims := src.Bounds().Dx(), src.Bounds().Dy(), int(src.Metadata().Dimensions)
 	var res barcode.Barcode
@@ -652,6 +683,23 @@ func TestC09Giant(t *testing.T) {
 			{W - 1, 1 << 20}, {W, 1 << 22}, {100003, 100003}}
 		for k, sz := range sizes {
 			g := GiantCase{Source: s, W: sz[0], H: sz[1]}
+			if (k+si)%3 == 0 {
+				g.Fill = red
+			}
+			cases = append(cases, g)
+		}
+	}
+	// giant SOURCES: the symbol first scaled to more than 10^9 pixels a side (a lazy view), then scaled again to one
+	// pixel less / exactly / one pixel more than k times that size
+	for si, s := range sources {
+		bc, _, _ := encodeSpec(s)
+		W, H := bc.Bounds().Dx(), bc.Bounds().Dy()
+		pw, ph := W<<26, H<<26
+		if bc.Metadata().Dimensions == 1 {
+			ph = 3
+		}
+		for k, sz := range [][2]int{{pw - 1, ph}, {pw, ph}, {pw + 1, ph + 1}, {2*pw - 1, 2 * ph}, {2 * pw, 2 * ph}, {2*pw + 3, 2*ph + 1}, {pw, ph - 1}, {3*pw - 2, 3*ph + 5}} {
+			g := GiantCase{Source: s, Pre: [2]int{pw, ph}, W: sz[0], H: sz[1]}
 			if (k+si)%3 == 0 {
 				g.Fill = red
 			}
